@@ -33,12 +33,20 @@ package federation
 //@ nonnil elem *graphql.Fragment, elem *graphql.Selection
 //@ nonnil graphql.Fragment.SelectionSet
 //@ func flattener.flattenFragments
-//@   requires f != nil && selectionSet != nil && target != nil
+//@   requires f != nil && selectionSet != nil && target != nil && visited != nil
 //@   ghost approved *graphql.Fragment
 //@   call ShouldIncludeNode assert arg0 == fragment.Directives
 //@   call ShouldIncludeNode ghost approved = ite(ret0 && ret1 == nil, fragment, nil)
 //@   call flattener.applies assert approved == fragment && arg2 == fragment && arg1 == typ
-//@   call flattener.flattenFragments assert approved == fragment && arg1 == fragment.SelectionSet && arg2 == typ && arg3 == target
+// C15 (time): a selection set is inlined at most once per flatten - this invocation enters it into the table before it
+// inlines or descends, and does so only if it was not there (defect s28: every spread of a shared fragment was inlined again,
+// 2^depth copies for fragments spreading one another twice).
+//@   ghost marked bool
+//@   entry ghost marked = false
+//@   call mapupdate assert !(selectionSet in visited)
+//@   call mapupdate ghost marked = true
+//@   call append assert marked
+//@   call flattener.flattenFragments assert marked && approved == fragment && arg1 == fragment.SelectionSet && arg2 == typ && arg3 == target && arg4 == visited
 
 // (Planner.planObject re-checks the directives of the selections it is handed; since flatten filters every occurrence
 // first - below - that check is redundant, and it is deliberately not under contract: removing it does not break C19.)
